@@ -55,7 +55,7 @@ fn check(case: &str) -> Option<String> {
             // ONE parser reads a long heterogeneous sequence (buffers, look-ahead and budget carried from item to item): every item equals the item parsed on its own
             let k = p[1].parse::<usize>().ok()?;
             let mut items: Vec<Value> = values();
-            items.extend([Value::from("a long string with an escape \\ and \n a line break, longer than the ones before it"), Value::from(""), Value::symbol("a-rather-long-symbol-name-that-outgrows-the-buffer"), Value::symbol("s"),
+            items.extend([Value::from("a long string with an escape \\ and \n a line break, longer than the ones before it"), Value::from(""), Value::symbol("a-rather-long-symbol-name-that-outgrows-the-buffer"), Value::symbol("s"), Value::symbol("\u{3bb}-test"), Value::symbol("-k"), Value::symbol("\u{e9}clair"), Value::symbol("+x"), Value::symbol("\u{3bb}"), Value::symbol("...rest"),
                           Value::from("\u{3bb}\u{1f600}"), Value::keyword("long-keyword-name"), Value::from('\u{1f600}'), Value::from(vec![1u8, 2, 255].into_boxed_slice()), Value::from(""), Value::from("z"),
                           Value::list(vec![Value::from("in a list"), Value::symbol("sym"), Value::from('c')]), Value::from(18446744073709551615u64), Value::from(-9223372036854775807i64), Value::from(1e300), Value::from("end")]);
             if k % 2 == 1 { items.reverse(); }
